@@ -5,6 +5,7 @@ import (
 	"fmt"
 	"os"
 	"path/filepath"
+	"reflect"
 	"sort"
 	"strings"
 
@@ -206,6 +207,21 @@ func cmdObserve(args []string) {
 	fmt.Fprintf(&b, "/-- (package, type, number of exported argument-free methods called on the zero value) -/\ndef zeroTypes : List (String × String × Nat) := [%s]\n\n", strings.Join(zrows, ", "))
 	fmt.Fprintf(&b, "/-- (type, method) pairs that panicked on the zero value (must be empty) -/\ndef zeroPanics : List (String × String) := [%s]\n\n", strings.Join(zpanics, ", "))
 	fmt.Fprintf(&b, "/-- types whose Verify/VerifySignature reports success on the zero value (must be empty) -/\ndef zeroVerifySuccess : List String := [%s]\n\n", strings.Join(zverify, ", "))
+	// failed-parse values: every reader of ops_failshape.go is fed the directed witness inputs of gen_failshape.go
+	// (fixed seed: truncations at every field boundary ±1 and single-byte corruptions of every control field of
+	// one well-formed encoding per structural variant); every value returned with an error is classified by its
+	// shape class, and all exported argument-free methods are called on (up to 64 witnesses of) every class
+	psw, ppan, pver, pcodes := observeFailedParses()
+	fmt.Fprintf(&b, "/-- (reader, shape class) pairs for which `harness observe` built a value of that class *through the real\n    reader* (a truncated or corrupted encoding) and called every exported argument-free method on it -/\ndef partialSwept : List (String × String) := [%s]\n\n", strings.Join(psw, ", "))
+	for _, rd := range failReaderNames() {
+		var rows []string
+		for _, c := range pcodes[rd] {
+			rows = append(rows, strings.ReplaceAll(fmt.Sprint(shapeCode(c)), " ", ", "))
+		}
+		fmt.Fprintf(&b, "/-- the shape classes of `partialSwept` for `%s`, as token lists (`shapeCode` of ops_failshape.go) -/\ndef partialSwept_%s : List (List Nat) := [%s]\n\n", rd, rd, strings.Join(rows, ", "))
+	}
+	fmt.Fprintf(&b, "/-- (reader, shape class, method) triples that panicked on such a value (must be empty) -/\ndef partialPanics : List (String × String × String) := [%s]\n\n", strings.Join(ppan, ", "))
+	fmt.Fprintf(&b, "/-- (reader, shape class) pairs whose Verify/VerifySignature reported success on such a value (must be empty) -/\ndef partialVerifySuccess : List (String × String) := [%s]\n\n", strings.Join(pver, ", "))
 	var ms []string
 	for _, m := range markers {
 		ms = append(ms, leanQuote(m))
@@ -223,3 +239,81 @@ func leanQuote(s string) string {
 }
 
 func init() { extraCmds["observe"] = cmdObserve }
+
+// observeFailedParses is the reader → witness table of the failed-parse half of C20: the witnesses of a
+// reader are the `failShape` cases the C20P generators emit for it under a fixed seed.
+func observeFailedParses() (swept, panics, verified []string, classes map[string][]string) {
+	classes = map[string][]string{}
+	g := &G{R: &Rng{s: 0xC20C20}, Tier: "quick"}
+	fsSmall(g, 10)
+	fsComposite(g, true, 0, false, 6)
+	type key struct{ reader, class string }
+	seen := map[key]int{}
+	pan := map[string]bool{}
+	ver := map[key]bool{}
+	done := map[string]bool{}
+	for _, c := range g.Cases {
+		if c.Op != "failShape" {
+			continue
+		}
+		id := joinArgs(c.Args)
+		if done[id] {
+			continue
+		}
+		done[id] = true
+		fr, ok := failReaders[c.Args[0]]
+		if !ok {
+			continue
+		}
+		t := 0
+		if fr.args == 2 {
+			t = atoi(c.Args[2])
+		}
+		w := unhx(c.Args[1])
+		v, failed := fr.run(w, t)
+		if !failed {
+			continue
+		}
+		k := key{c.Args[0], shapeClass(shapeOf(reflect.ValueOf(v), 0))}
+		seen[k]++
+		if seen[k] > 64 {
+			continue
+		}
+		p := addressable(v)
+		if p == nil {
+			continue // a nil pointer: there is no value to call a method on
+		}
+		_, ps := callAllMethods(p)
+		for _, m := range ps {
+			pan[fmt.Sprintf("(%s, %s, %s)", leanQuote(k.reader), leanQuote(k.class), leanQuote(strings.SplitN(m, ":", 2)[0]))] = true
+		}
+		v2, _ := fr.run(w, t)
+		if p2 := addressable(v2); p2 != nil {
+			if has, success := verifySucceeds(p2); has && success {
+				ver[k] = true
+			}
+		}
+	}
+	var ks []key
+	for k := range seen {
+		ks = append(ks, k)
+	}
+	sort.Slice(ks, func(i, j int) bool {
+		if ks[i].reader != ks[j].reader {
+			return ks[i].reader < ks[j].reader
+		}
+		return ks[i].class < ks[j].class
+	})
+	for _, k := range ks {
+		swept = append(swept, fmt.Sprintf("(%s, %s)", leanQuote(k.reader), leanQuote(k.class)))
+		classes[k.reader] = append(classes[k.reader], k.class)
+		if ver[k] {
+			verified = append(verified, fmt.Sprintf("(%s, %s)", leanQuote(k.reader), leanQuote(k.class)))
+		}
+	}
+	for m := range pan {
+		panics = append(panics, m)
+	}
+	sort.Strings(panics)
+	return
+}
